@@ -674,6 +674,25 @@ func c02Enumerate(tier string, emit explore.Emit) {
 			}
 		}
 	}
+	for name, b := range c11OddStartups() {
+		name, b := name, b
+		for _, cfg := range []string{"certs", "nil"} {
+			c := c11Case{Cfg: cfg, Behave: "session", StartupName: name, StartupBytes: b, Hist: []c11Letter{{"Query(ok)", pgproto.Query(progRows)}}}
+			emit(explore.Case{Family: "session", Size: 21, Desc: func() any { return map[string]any{"session": c.String()} },
+				Run: func() explore.Result {
+					r := c11Run(c)
+					r.Outcome = "session"
+					for i := range r.Violations {
+						r.Violations[i].Clause = "malformed-backend-stream"
+					}
+					return r
+				}})
+		}
+		emit(explore.Case{Family: "session", Size: 21, Desc: func() any { return map[string]any{"session": "start-up packet: " + name + ", then Terminate"} },
+			Run: func() explore.Result {
+				return c02RunSession(c02Session{Name: "start-up packet: " + name, Segs: [][]byte{b, pgproto.Terminate()}}, false)
+			}})
+	}
 	// F3
 	for i, s := range c02Sessions(tier) {
 		s := s
